@@ -157,7 +157,7 @@ def rename_fragments(case, names):
 def case_text(case):
     if case.get('ctor', 'string') == 'from_graph':
         return f"from_graph(base nodes {case['base_graph']['nodes']} edges {case['base_graph']['edges']}, {case['frag_string']})"
-    return f"{case['ctor'] if case.get('ctor') else 'string'}: {case['base_string']}.{case['frag_string']}"
+    return f"{case['ctor'] if case.get('ctor') else 'string'}: {case['base_string']}.{case['frag_string']}" + (f" {case['kw']}" if case.get('kw') else '')
 
 
 def make_resolver(case, **kw):
@@ -595,14 +595,39 @@ def coarse_result_matches(aa, truth):
 # ---------------------------------------------------------------------------------------------
 # mixed resolver workload + executor (C02, C03, C09, C12 numbering, C15 references)
 
+def random_label_insensitive_cut_case(rng, max_heavy):
+    """two fragments joined by descriptors of DIFFERENT labels but matching kinds, at most one pair per kind: only the
+    label-insensitive convention (legacy=False) joins them, and it has exactly one way to do so"""
+    import re
+    for _ in range(60):
+        c = random_cut_case(rng, max_heavy, plain_names=True)
+        if c is None or c['nfrag'] != 2:
+            continue
+        items = c['frag_string'][1:-1].split(',')
+        ok = True
+        for it in items:
+            kinds = re.findall(r'\[([$<>!])[^\]]*\]', it)
+            if kinds.count('$') > 1 or sum(1 for k in kinds if k in '<>') > 1 or '!' in kinds:
+                ok = False
+        if not ok or len(items) != 2:
+            continue
+        items[1] = re.sub(r'\[([$<>])([^\]]*)\]', lambda m: '[' + m.group(1) + m.group(2) + 'z]', items[1])
+        out = dict(c, frag_string='{' + ','.join(items) + '}', kw={'legacy': False}, alt_base_strings=[],
+                   features=sorted(set(c['features']) | {'label_insensitive_convention', 'labels_differ_across_the_cut'}))
+        return out
+    return None
+
+
 def resolver_workload(rng, n, max_heavy=(3, 6, 10, 16)):
     from ..gen import ambig
     made = 0
     while made < n:
         r = rng.random()
         case = None
-        if r < 0.30:
+        if r < 0.27:
             case = random_cut_case(rng, rng.choice(max_heavy))
+        elif r < 0.30:
+            case = random_label_insensitive_cut_case(rng, rng.choice(max_heavy[:3]))
         elif r < 0.45:
             case = random_shared_case(rng, rng.choice(max_heavy))
         elif r < 0.55:
@@ -625,20 +650,38 @@ def resolver_workload(rng, n, max_heavy=(3, 6, 10, 16)):
 EXPECTED_REJECTION = 'Likely you are writing an aromatic molecule'
 
 
+def ambig_resolver(case):
+    """polymer-style input through one of the three constructors, with both keywords passed on"""
+    import cgsmiles
+    from cgsmiles import MoleculeResolver
+    kw = dict(last_all_atom=not case['coarse'], legacy=case['legacy'])
+    ctor = case.get('ctor', 'string')
+    if ctor == 'string':
+        return MoleculeResolver.from_string(case['string'], **kw)
+    cut = case['string'].index('}.{')
+    base, frag = case['string'][:cut + 1], case['string'][cut + 2:]
+    if ctor == 'from_graph':
+        return MoleculeResolver.from_graph(frag, cgsmiles.read_cgsmiles(base), **kw)
+    return MoleculeResolver.from_fragment_dicts(base, [cgsmiles.read_fragments(frag, all_atom=not case['coarse'])], **kw)
+
+
 def execute(case):
     """resolve every level of a case; -> dict(error, steps=[(cg, aa)], rejected)"""
     from cgsmiles import MoleculeResolver
     kind = case['kind']
     try:
         if kind == 'ambig':
-            r = MoleculeResolver.from_string(case['string'], last_all_atom=not case['coarse'], legacy=case['legacy'])
+            r = ambig_resolver(case)
         elif kind == 'multilevel':
             r = MoleculeResolver.from_string(case['multi_string'], last_all_atom=not case.get('coarse_last', False))
         elif kind == 'coarse_cut':
             r = make_resolver(case, last_all_atom=False)
         else:
-            r = make_resolver(case)
+            r = make_resolver(case, **case.get('kw', {}))
         steps = list(r.resolve_iter())
+        if kind == 'multilevel':
+            # the one-call driver on a fresh resolver: the pair it hands back is judged by the resolve_all contract
+            MoleculeResolver.from_string(case['multi_string'], last_all_atom=not case.get('coarse_last', False)).resolve_all()
     except SyntaxError as err:
         if EXPECTED_REJECTION in str(err):
             return dict(error=None, steps=[], rejected='not_kekulizable')
@@ -651,7 +694,7 @@ def execute(case):
 def describe_case(case):
     k = case['kind']
     if k == 'ambig':
-        return f"{case['string']} (legacy={case['legacy']}, all_atom={not case['coarse']})"
+        return f"{case['string']} (legacy={case['legacy']}, all_atom={not case['coarse']}, {case.get('ctor', 'string')})"
     if k == 'multilevel':
         return case['multi_string']
     return case_text(case)
